@@ -53,6 +53,11 @@ func (f *BufferedFormatter) WithSchema(schema *ast.Schema) *BufferedFormatter {
 	return f
 }
 
+func (f *BufferedFormatter) WithVariableTypes(variableTypes map[string]string) *BufferedFormatter {
+	f.Formatter.WithVariableTypes(variableTypes)
+	return f
+}
+
 func (f *BufferedFormatter) Copy() *BufferedFormatter {
 
 	return &BufferedFormatter{
@@ -85,6 +90,7 @@ type Formatter struct {
 	operationName *string
 	operationType ast.Operation
 	schema        *ast.Schema
+	variableTypes map[string]string
 
 	padNext  bool
 	lineHead bool
@@ -117,6 +123,13 @@ func (f *Formatter) WithOperationType(operationType ast.Operation) *Formatter {
 
 func (f *Formatter) WithSchema(schema *ast.Schema) *Formatter {
 	f.schema = schema
+	return f
+}
+
+// WithVariableTypes sets the types the client declared its variables with; a variable used at
+// positions of different types is declared with that type and not with the type of one of the positions
+func (f *Formatter) WithVariableTypes(variableTypes map[string]string) *Formatter {
+	f.variableTypes = variableTypes
 	return f
 }
 
@@ -241,7 +254,7 @@ func (f *Formatter) walkArgumentList(s ast.SelectionSet) map[string]string {
 					continue
 				}
 				if ad := d.Definition.Arguments.ForName(a.Name); ad != nil {
-					res[a.Value.Raw] = ad.Type.String()
+					f.setVariableType(res, a.Value.Raw, ad.Type.String())
 				}
 			}
 		}
@@ -268,19 +281,19 @@ func (f *Formatter) walkArgumentList(s ast.SelectionSet) map[string]string {
 				}
 
 				for k, v := range f.walkChildrenArgumentList(typeDef, a.Value.Children) {
-					res[k] = v
+					f.setVariableType(res, k, v)
 				}
 				continue
 			}
 
 			if a.Value.Kind == ast.Variable {
-				res[a.Value.Raw] = ad.Type.String()
+				f.setVariableType(res, a.Value.Raw, ad.Type.String())
 			}
 		}
 		if field.SelectionSet != nil {
 			stepRes := f.walkArgumentList(field.SelectionSet)
 			for k, v := range stepRes {
-				res[k] = v
+				f.setVariableType(res, k, v)
 			}
 		}
 	}
@@ -305,7 +318,7 @@ func (f *Formatter) walkChildrenArgumentList(typeDef *ast.Definition, childs ast
 				continue
 			}
 			for k, v := range f.walkChildrenArgumentList(chTypeDef, ch.Value.Children) {
-				res[k] = v
+				f.setVariableType(res, k, v)
 			}
 			continue
 		}
@@ -313,16 +326,38 @@ func (f *Formatter) walkChildrenArgumentList(typeDef *ast.Definition, childs ast
 		if ch.Value.Kind == ast.Variable {
 			// child name is empty if it's an array, f.e. hello(arrArg: [$someVariable])
 			if ch.Name == "" {
-				res[ch.Value.Raw] = ch.Value.ExpectedType.String()
+				f.setVariableType(res, ch.Value.Raw, ch.Value.ExpectedType.String())
 			}
 			ad := typeDef.Fields.ForName(ch.Name)
 			if ad == nil {
 				continue
 			}
-			res[ch.Value.Raw] = ad.Type.String()
+			f.setVariableType(res, ch.Value.Raw, ad.Type.String())
 		}
 	}
 	return res
+}
+
+// setVariableType notes the type of a position a variable stands at. When the positions of a variable
+// differ in type, the type the client declared the variable with suits all of them; a nullable variable
+// with a default can stand at a non-null position, its default travels as a value, so non-null is kept
+func (f *Formatter) setVariableType(res map[string]string, name, typ string) {
+	prev, ok := res[name]
+	if !ok || prev == typ {
+		res[name] = typ
+		return
+	}
+
+	isNonNull := strings.HasSuffix(prev, "!") || strings.HasSuffix(typ, "!")
+	if declaredType, ok := f.variableTypes[name]; ok {
+		typ = declaredType
+	} else if strings.HasSuffix(prev, "!") {
+		typ = prev
+	}
+	if isNonNull && !strings.HasSuffix(typ, "!") {
+		typ += "!"
+	}
+	res[name] = typ
 }
 
 func (f *Formatter) formatSelectionSet(sets ast.SelectionSet) {
